@@ -144,7 +144,8 @@ contract("C11.unit_rule", file=CU, func="UnitValueValidator.check_tag_unit_class
 # tags that have neither class); only the bare placeholder '#' is exempt
 HVF = "hed/validator/hed_validator.py"
 CLASSES_ = __import__("pyvc.contract", fromlist=["CLASSES"]).CLASSES
-CLASSES_["UnitRuleTag"]["fields"].update({"extension": "Str", "value_class_tag": "Bool"})
+CLASSES_["UnitRuleTag"]["fields"].update({"extension": "Str", "value_class_tag": "Bool", "takes_value": "Bool"})
+EXTERNS["UnitRuleTag.is_takes_value_tag"] = lambda interp, args, kwargs: interp.field_read(args[0], "takes_value")
 EXTERNS["UnitRuleTag.is_value_class_tag"] = lambda interp, args, kwargs: interp.field_read(args[0], "value_class_tag")
 class_model("CharValidatorM", {})
 class_model("HedValidatorU", {"_unit_validator": "UnitValueValidator", "_char_validator": "CharValidatorM"})
